@@ -166,6 +166,10 @@ func VH_C05_static_fence() {
 		want3 = vhExpected(false, false, false, det, all)
 	}
 	vassert("C05.fset_notifications", vhSameStrings(vhDetectsOf(m3), want3))
+	for _, m := range m3 {
+		vassert("C05.fset_payload_carries_new_fields_and_current_object", gjson.Get(m, "id").String() == "truck" && gjson.Get(m, "fields.speed").Int() == 9 &&
+			gjson.Get(m, "command").String() == "fset" && gjson.Get(m, "object.coordinates.0").String() == vhPos[p2][1] && gjson.Get(m, "object.coordinates.1").String() == vhPos[p2][0])
+	}
 	vassert("C05.fset_delivered", vhSameStrings(vhDelivered(s, &d3, h), want3))
 	if len(want3) > 0 {
 		vassert("C05.fset_candidate_not_dropped", vhCandidate(s, &d3, h))
